@@ -463,10 +463,10 @@ pub fn make(plan: &str, seed: u64, count: usize, tier: &str, wave: u64) -> (Vec<
         }
         "memo" => {
             let groups = (count / 4).max(1);
-            let mut base = profile_grammars(&prof_for("memo", tier, wave).unwrap(), seed, groups - groups / 3, wave, &mut stats);
+            let mut base = profile_grammars(&prof_for("memo", tier, wave).unwrap(), seed, groups - groups / 2, wave, &mut stats);
             let nplain = base.len();
-            // a third of the groups mixes skipping / non-skipping callers of memoized rules
-            base.extend(profile_grammars(&prof_for("memows", tier, wave).unwrap(), seed, groups / 3, wave, &mut stats));
+            // half of the groups mix skipping / non-skipping callers of memoized rules
+            base.extend(profile_grammars(&prof_for("memows", tier, wave).unwrap(), seed, groups / 2, wave, &mut stats));
             for (k, (g, idx)) in base.into_iter().enumerate() {
                 let plan = if k >= nplain { "memows" } else { "memo" };
                 let bytes = rng_bytes(seed, "memo-mask", idx, 64);
